@@ -1,0 +1,44 @@
+/*
+ * Verification hooks. Compiled in only with -DCPP_TBOX_VERIF; without it this header
+ * defines empty macros and nothing else.
+ *
+ * A single table of function pointers (all null by default). A conformance harness may
+ * install: a virtual monotonic clock, a virtual wall clock / time zone, and a callback
+ * invoked at named points inside critical sections (used to record linearized trace
+ * events and to steer thread schedules).
+ */
+#ifndef TBOX_BASE_VERIF_HOOK_H_20261003
+#define TBOX_BASE_VERIF_HOOK_H_20261003
+
+#ifdef CPP_TBOX_VERIF
+
+#include <cstdint>
+
+namespace tbox {
+namespace verif {
+
+struct HookTable {
+    bool (*steady_ms)(uint64_t &ms);                    //!< monotonic clock in milliseconds
+    bool (*wall_clock)(uint32_t &sec, uint32_t &usec);  //!< UTC wall clock
+    bool (*tz_offset)(int &seconds);                    //!< system time-zone offset
+    void (*point)(const char *name, long a, long b);    //!< named point reached
+};
+
+inline HookTable& Hooks() {
+    static HookTable table = { nullptr, nullptr, nullptr, nullptr };
+    return table;
+}
+
+}
+}
+
+#define CPP_TBOX_VERIF_POINT(name, a, b) \
+    do { auto verif_f_ = ::tbox::verif::Hooks().point; if (verif_f_) verif_f_((name), (long)(a), (long)(b)); } while (0)
+
+#else
+
+#define CPP_TBOX_VERIF_POINT(name, a, b) do {} while (0)
+
+#endif //CPP_TBOX_VERIF
+
+#endif //TBOX_BASE_VERIF_HOOK_H_20261003
